@@ -58,5 +58,19 @@ theorem settled_position_is_owed_nothing (w : World) (dl : Delegation) (info : V
     calculateDelegationRewards w dl info a = .ok ([], histFilterByAlliance info.hist a.denom) :=
   C13.second_claim_pays_nothing w dl info a t ht hsettled hu hsnap
 
+/-- debit side: a successful end-of-block — take rate, weight decay with its settlement of every validator, rebalancing with
+    its claims of validator rewards, payouts — never lowers the rewards pool's balance of any denom, for non-negative
+    distribution responses and no pending entry naming the pool as delegator: the pool is debited by reward claims only
+    (proof: AllianceProofs/PoolUp, a monotone-observable judgment that also carries the non-negativity of the response tape
+    and of each response taken off it) -/
+theorem end_block_never_debits_the_pool (d : Denom) (w w' : World) (ho : OracleNonneg w)
+    (hq : ∀ p ∈ w.undelQueue, ∀ e ∈ p.2, e.del ≠ accPool) (h : endBlocker w = (.ok (), w')) :
+    bankBalance w accPool d ≤ bankBalance w' accPool d := endBlocker_never_debits_pool d w w' ho hq h
+
+/-- a claim pays the claimant, in every denom, exactly the coins `CalculateDelegationRewards` computed -/
+theorem claim_pays_exactly_what_was_calculated (del : Acct) (hu : IsUser del) (val : AVal) (dn d : Denom)
+    (w w' : World) (r : Coins × AVal) (h : claimDelegationRewards del val dn w = (.ok r, w')) :
+    bankBalance w' del d = bankBalance w del d + Coins.sumOf r.1 d := claimDelegationRewards_pays del hu val dn d w w' r h
+
 end C12
 end Alliance
